@@ -38,6 +38,12 @@ Theorem C16_app_judgement_sound_all : forall sc, JudgeProfiles.prof_C15 sc = tru
 Proof. exact JudgeProfiles.C15_sound_all. Qed.
 
 
+(* ---- source tie, third wave (DESIGN 11.7): the input reader / Negate / SwizzleAxis regenerated from the Rust source ---- *)
+From BEI Require Generated.ReaderSrc Generated.ModifSrc Proofs.SrcTie3P.
+Theorem C16_source_reader_value : forall r c dev i, ReaderSrc.InputReader_value_src (SrcTie3P.reader_of r c dev) i = Reader.reader_value r c dev i.
+Proof. exact SrcTie3P.InputReader_value_tie. Qed.
+
+
 Print Assumptions C16_flag_per_frame.
 Print Assumptions C16_read.
 Print Assumptions C16_mouse_masked.
@@ -73,3 +79,4 @@ Print Assumptions C16_every_read_of_a_frame.
 Print Assumptions C16_app_judgement_sound.
 Print Assumptions C16_app_judgement_transfer.
 Print Assumptions C16_app_judgement_sound_all.
+Print Assumptions C16_source_reader_value.
